@@ -183,12 +183,31 @@ def _worker(args):
     import importlib
     mod = importlib.import_module(fn_mod)
     fn = getattr(mod, fn_name)
+    import hashlib
+    import bind
     out = []
     for b in chunk:
         try:
-            out.append(fn(b))
+            # the memory layout of the arrays handed to pyttb is a presentation (bind.py): rotate it per behaviour;
+            # it is stored in the recorded traces so that a replay reproduces it
+            lay = (b.get("layout") if isinstance(b, dict) and b.get("layout") in bind.LAYOUTS else
+                   bind.LAYOUTS[hashlib.md5(json.dumps(b, sort_keys=True).encode()).digest()[0] % len(bind.LAYOUTS)])
+            dg = hashlib.md5(json.dumps(b, sort_keys=True).encode()).digest()
+            dt = (b.get("dtype") if isinstance(b, dict) and b.get("dtype") in ("float", "int") else ("float", "float", "int")[dg[1] % 3])
+            bind.set_layout(lay)
+            bind.set_dtype(dt)
+            r = fn(b)
+            if isinstance(r, dict):
+                for tr in r.get("traces", []):
+                    if isinstance(tr, dict):
+                        tr["layout"] = lay
+                        tr["dtype"] = dt
+            out.append(r)
         except Exception:  # harness bug: surface it, do not call it a violation
             out.append({"machinery_error": traceback.format_exc(), "behaviour": b})
+        finally:
+            bind.set_layout("default")
+            bind.set_dtype("float")
     return out
 
 
@@ -198,6 +217,7 @@ def pmap(fn_mod: str, fn_name: str, items: Sequence[Any], procs: int = 16,
     if not items:
         return []
     chunks = [(fn_mod, fn_name, items[i:i + chunk]) for i in range(0, len(items), chunk)]
+    procs = int(os.environ.get("VERIF_PROCS", procs))      # development aid (coverage measurement runs in-process)
     if procs <= 1 or len(items) < 50:
         res = [_worker(c) for c in chunks]
     else:
@@ -270,6 +290,11 @@ def replay_file(path: str, prop: str, mod_name: str, trace_module: str,
     data = json.loads(Path(path).read_text())
     stim = data["stimulus"]
     mod = importlib.import_module(mod_name)
+    import bind
+    if stim.get("layout") in bind.LAYOUTS:
+        bind.set_layout(stim["layout"])
+    if stim.get("dtype") in ("float", "int"):
+        bind.set_dtype(stim["dtype"])
     tr = mod.record(stim)
     tv = tla.validate_traces(trace_module, [tr], constants=trace_constants)
     if tv.rejected:
